@@ -98,7 +98,13 @@ macro_rules! impl_bit_value {
                 if val & (1 << (len - 1)) == 0 {
                     val
                 } else {
-                    ((!val) + 1) | (1 << (len - 1))
+                    let magnitude = (!val) + 1;
+                    if magnitude & !(-1 << (len - 1)) == 0 {
+                        // the magnitude does not fit (value == -2^(len-1)): never emit "negative zero"
+                        0
+                    } else {
+                        magnitude | (1 << (len - 1))
+                    }
                 }
             }
         }
